@@ -408,13 +408,8 @@ func (r *router) find(path string, paramsPointer *param.Params, unescape bool) (
 				i = len(search)
 			}
 			(*paramsPointer) = (*paramsPointer)[:(paramIndex + 1)]
-			val := search[:i]
-			if unescape {
-				if v, err := url.QueryUnescape(search[:i]); err == nil {
-					val = v
-				}
-			}
-			(*paramsPointer)[paramIndex].Value = val
+			// keep the raw value while searching: backtracking restores searchIndex from its length
+			(*paramsPointer)[paramIndex].Value = search[:i]
 			paramIndex++
 			search = search[i:]
 			searchIndex = searchIndex + i
@@ -432,14 +427,7 @@ func (r *router) find(path string, paramsPointer *param.Params, unescape bool) (
 			cn = child
 			(*paramsPointer) = (*paramsPointer)[:(paramIndex + 1)]
 			index := len(cn.pnames) - 1
-			val := search
-			if unescape {
-				if v, err := url.QueryUnescape(search); err == nil {
-					val = v
-				}
-			}
-
-			(*paramsPointer)[index].Value = bytesconv.B2s(append(buf, val...))
+			(*paramsPointer)[index].Value = bytesconv.B2s(append(buf, search...))
 			// update indexes/search in case we need to backtrack when no handler match is found
 			paramIndex++
 			searchIndex += len(search)
@@ -459,6 +447,15 @@ func (r *router) find(path string, paramsPointer *param.Params, unescape bool) (
 		} else {
 			// Not found
 			break
+		}
+	}
+
+	if unescape && res.handlers != nil {
+		// the search is over: the values can no longer be needed as lengths of the matched text
+		for i := range *paramsPointer {
+			if v, err := url.QueryUnescape((*paramsPointer)[i].Value); err == nil {
+				(*paramsPointer)[i].Value = v
+			}
 		}
 	}
 
